@@ -636,10 +636,16 @@ func (f *dataFamily) Close() error {
 	f.logger.Info("starting close data family", logger.String("family", f.indicator))
 	start := time.Now()
 
-	f.mutex.Lock()
+	// wait the running flush job without holding the lock, the flush job needs the lock to complete.
+	for {
+		f.flushCondition.Wait()
+		f.mutex.Lock()
+		if !f.isFlushing.Load() {
+			break
+		}
+		f.mutex.Unlock()
+	}
 	defer f.mutex.Unlock()
-
-	f.flushCondition.Wait()
 
 	if f.immutableMemDB != nil {
 		if err := f.flushMemoryDatabase(f.immutableSeq, f.immutableMemDB); err != nil {
